@@ -579,6 +579,7 @@ def run(ctx):
     rule_unitstr(ctx, py)
     from . import c18
     c18.rule_value_str(ctx, py, "C12.UNITSTR")
+    c18.rule_value_float(ctx, py, "C12.UNITSTR")
     rule_traj(ctx, py)
     rule_names(ctx, py, ctx.tier == "thorough")
     rule_arity(ctx, py)
